@@ -36,7 +36,7 @@ CODE_MATCHER = ("Crng.Tie.CodeMatcher", ["matcher_match_eq", "matcher_match_spec
 CODE_HASHER = ("Crng.Tie.CodeHasher", ["getDestinationIndex_eq", "getDestinationIndex_owner", "bsearch_congr", "ch_dispatch_trace", "ch_dispatch_name_only"])
 CODE_ORDERED = ("Crng.Tie.CodeOrdered", ["ordered_eq", "hasher_restored", "accept_iff_newer", "accepted_increasing"])
 CODE_KEEPSAFE = ("Crng.Tie.CodeKeepSafe", ["add_eq", "getAll_eq", "getAll_after_adds", "getAll_twice"])
-CODE_REWRITER = ("Crng.Tie.CodeRewriter", ["do_literal_eq", "do_not_skips", "do_regex", "do_notRe_precedence"])
+CODE_REWRITER = ("Crng.Tie.CodeRewriter", ["do_literal_eq", "do_not_skips", "do_regex", "do_notRe_precedence", "new_eq", "new_then_do_literal"])
 CODE_TABLEOPS = ("Crng.Tie.CodeTableOps", ["addRoute_eq", "addBlacklist_eq", "addAggregator_eq", "addRewriter_eq", "delBlacklist_eq",
                                              "delRewriter_eq", "delAggregator_eq", "delRoute_eq", "cut_eq_eraseIdx"])
 CODE_COMPOSE = ("Crng.Tie.CodeCompose", ["dispatch_dest_sends", "rejected_no_dest_sends", "consumed_iff", "aggTrace_no_dest_send",
